@@ -244,6 +244,39 @@ def shape_models():
             h.n("Mul", ["k", "d"], "y")
             h.out("y")
             out.append(h.build())
+    # the WHOLE shape tensor goes through a rank-changing operator (Unsqueeze / stacked rows / column view) before it is indexed: a
+    # symbolic shape value describes a 1-D tensor and must not survive the change of rank
+    for xs, ys in [((2, 4), (3, 5)), ((1, 4), (2, 5))]:
+        h = H(f"stacked shape table: Gather(Concat(Unsqueeze(Shape(x)), Unsqueeze(Shape(y))), [1]) -> Reshape [-1] -> Expand x={list(xs)} y={list(ys)}")
+        h.inp("x", F, xs)
+        h.inp("y", F, ys)
+        h.n("Shape", ["x"], "sx")
+        h.n("Shape", ["y"], "sy")
+        h.c("zero", np.array([0], dtype=np.int64))
+        h.n("Unsqueeze", ["sx", "zero"], "ux")
+        h.n("Unsqueeze", ["sy", "zero"], "uy")
+        h.n("Concat", ["ux", "uy"], "table", axis=0)
+        h.c("one", np.array([1], dtype=np.int64))
+        h.n("Gather", ["table", "one"], "row", axis=0)
+        h.c("flat", np.array([-1], dtype=np.int64))
+        h.n("Reshape", ["row", "flat"], "r")
+        h.n("Expand", ["y", "r"], "z")
+        h.out("z", "r")
+        h.out_types = {"r": (I64, [2])}
+        out.append(h.build())
+        for ax, gi in ((1, 0), (0, 0), (1, 1)):
+            h = H(f"column / row view of a shape: Gather(Unsqueeze(Shape(x), [{ax}]), [{gi}]) x={list(xs)}")
+            h.inp("x", F, xs)
+            h.inp("k", I64, (1,))
+            h.n("Shape", ["x"], "sx")
+            h.c("ax", np.array([ax], dtype=np.int64))
+            h.n("Unsqueeze", ["sx", "ax"], "col")
+            h.c("gi", np.array([gi], dtype=np.int64))
+            h.n("Gather", ["col", "gi"], "g", axis=0)
+            h.n("Mul", ["g", "k"], "y")
+            h.out("y")
+            h.out_types = {"y": (I64, None)}
+            out.append(h.build())
     # a constant index that is out of range for the shape value: the model fails at run time whatever the input, but it is a
     # valid model and the optimizer has to return (leaving the node alone)
     for idx in ([3], [-4], [1, 5]):
